@@ -63,6 +63,34 @@ def DRS(label):
     return dict(k='drop_resumer', ref=label)
 
 
+def P(o, p, **kw):
+    return dict(k='pipe', o=o, p=p, **kw)
+
+
+def PI(o, p, **kw):
+    return dict(k='pipe_in', o=o, p=p, **kw)
+
+
+def SEND(p, n):
+    return dict(k='send', p=p, n=n)
+
+
+def CLOSE(p):
+    return dict(k='close_input', p=p)
+
+
+def NEXT(p):
+    return dict(k='next', p=p)
+
+
+def DS(p):
+    return dict(k='drop_stream', p=p)
+
+
+def DEPTH(p, n):
+    return dict(k='set_depth', p=p, n=n)
+
+
 def SETMAX(n):
     return dict(k='set_max', n=n)
 
@@ -221,6 +249,40 @@ def max_families():
     return out
 
 
+def pipe_in_families(pools=(1,)):
+    out = []
+    for p in pools:
+        out.append(make('PI_send2_close_S_p%d' % p, 1, p, 0, [PI(1, 1), SEND(1, 1), SEND(1, 2), CLOSE(1)], [S(1)], pipes=1))
+        out.append(make('PI_send_drop_send_p%d' % p, 1, p, 0, [PI(1, 1), SEND(1, 1), DROP(1), SEND(1, 2)], pipes=1))
+        out.append(make('PI_sender_vs_D_p%d' % p, 1, p, 0, [PI(1, 1), D(1), S(1)], [SEND(1, 1), SEND(1, 2), CLOSE(1)], pipes=1))
+        out.append(make('PI_burst_T_p%d' % p, 1, p, 0, [PI(1, 1), SEND(1, 1), SEND(1, 2), SEND(1, 3)], [T(1), S(1)], pipes=1))
+        out.append(make('PI_drop_vs_send_p%d' % p, 1, p, 0, [PI(1, 1), SEND(1, 1), DROP(1)], [SEND(1, 2), CLOSE(1)], pipes=1))
+    out.append(make('PI_p0_sync_drives', 1, 0, 0, [PI(1, 1), SEND(1, 1), S(1), CLOSE(1), S(1)], pipes=1))
+    return out
+
+
+def pipe_families(pools=(1,)):
+    out = []
+    for p in pools:
+        out.append(make('P_send_next_close_next_p%d' % p, 1, p, 0, [P(1, 1), SEND(1, 1), NEXT(1), CLOSE(1), NEXT(1)], pipes=1))
+        out.append(make('P_cons_vs_feeder_p%d' % p, 1, p, 0, [P(1, 1), NEXT(1), NEXT(1)], [SEND(1, 1), CLOSE(1)], pipes=1))
+        out.append(make('P_depth1_bp_p%d' % p, 1, p, 0, [P(1, 1), DEPTH(1, 1), SEND(1, 1), SEND(1, 2), NEXT(1), NEXT(1)], pipes=1))
+        out.append(make('P_depth1_cons_vs_feeder_p%d' % p, 1, p, 0, [P(1, 1), DEPTH(1, 1), NEXT(1), NEXT(1), NEXT(1)], [SEND(1, 1), SEND(1, 2), CLOSE(1)], pipes=1))
+        out.append(make('P_feed_vs_SD_p%d' % p, 1, p, 0, [P(1, 1), SEND(1, 1), SEND(1, 2), CLOSE(1)], [S(1), D(1)], pipes=1))
+    return out
+
+
+def pipe_drop_families(pools=(1,)):
+    out = []
+    for p in pools:
+        out.append(make('P_send_dropstream_p%d' % p, 1, p, 0, [P(1, 1), SEND(1, 1), DS(1)], pipes=1))
+        out.append(make('P_dropstream_idle_dropobj_p%d' % p, 1, p, 0, [P(1, 1), DS(1), DROP(1)], pipes=1))
+        out.append(make('P_dropstream_vs_send_p%d' % p, 1, p, 0, [P(1, 1), DS(1)], [SEND(1, 1), SEND(1, 2)], pipes=1))
+        out.append(make('P_bp_dropstream_p%d' % p, 1, p, 0, [P(1, 1), DEPTH(1, 1), SEND(1, 1), SEND(1, 2), DS(1), DROP(1)], pipes=1))
+        out.append(make('P_send_next_dropstream_p%d' % p, 1, p, 0, [P(1, 1), SEND(1, 1), NEXT(1), SEND(1, 2), DS(1)], [S(1)], pipes=1))
+    return out
+
+
 def for_property(prop, tier, seed=0):
     """Returns the list of scenarios a property's check explores"""
     quick = tier == 'quick'
@@ -257,6 +319,12 @@ def for_property(prop, tier, seed=0):
         fam = suspend_families((0, 1) if quick else (0, 1, 2))
     elif prop == 'C14':
         fam = core_mix((1,))[:4] + drop_families((1,)) + fsync_families((1,))[:6]
+    elif prop == 'C11':
+        fam = pipe_in_families((1,) if quick else (1, 2))
+    elif prop == 'C12':
+        fam = pipe_families((1,) if quick else (1, 2))
+    elif prop == 'C16':
+        fam = pipe_drop_families((1,) if quick else (1, 2))
     elif prop == 'C15':
         fam = panic_families((1,) if quick else (1, 2, 3))
     else:
